@@ -61,19 +61,32 @@ META = {
         "theorem needs `no_conflict` for the unrepaired code and nothing for the repaired one), fcmp _false/_true raise "
         "(C23_fcmp_false_true_refuted), ops are converted in layout order so a use before its definition's block raises "
         "KeyError (model + oracle only). The model (hand-written code around the generated tables) is tied to the backend "
-        "by comparing the parsed `.ll` text of generated functions with the model's translation."),
+        "by comparing the parsed `.ll` text of generated functions with the model's translation. WHOLE FUNCTION (integer "
+        "fragment: constants, the 13 binary ops with flags, icmp, trunc/zext/sext, select, return, br/cond_br with block "
+        "arguments incl. the repaired same-successor cond_br): C23_whole_function_sim composes the table theorems "
+        "(instruction-wise, hence sem_i = sem_d for every width) with the phi-table transfer lemmas (block boundaries): for "
+        "every function accepted by the computable well-formedness check whole_okb, every input and every fuel, if the "
+        "dialect-level machine (block arguments + sem_d) does not get stuck, the machine running the translated blocks "
+        "(conv_instr's instructions + sem_i + phi table) computes the same outcome -- same returned bits, poison/UB exactly "
+        "when the source, out-of-fuel alike. C23_conv_func_validated_all lifts this to the LITERAL output of conv_func "
+        "(materialised selects executed as instructions) as translation validation: the hypothesis is the computable "
+        "validator lit_okb, evaluated on every generated case (accepted on all of them); that conv_func's output ALWAYS "
+        "passes the validator is not proved."),
     "level_note": (
         "Trusted: Coq kernel; harness/translate/c23_tables.py (cross-checked against the runtime tables each run); the "
-        "hand-written C23/Model.v (conv_instr, conv_term, conv_func, k_build) tied by correspondence only -- the "
-        "per-instruction theorems and the CFG-kernel theorem are not composed into one whole-function simulation "
-        "theorem in Coq; the `.ll` parser and reference evaluator. OUTSIDE Coq (oracle only): that LLVM accepts the IR, "
+        "hand-written C23/Model.v (conv_instr, conv_term, conv_func, k_build) tied by correspondence only; the machines "
+        "run_src / run_tgt / run_lit of C23/Whole.v (dynamic typing: an operand fetched at the wrong width is stuck; "
+        "poison = UB; select reads only the chosen operand on the IR side), tied to LLVM by running them in Coq next to "
+        "the reference evaluator on concrete inputs (whole-run family); the whole-function theorems hold for source runs "
+        "that do not get stuck and under the computable checks whole_okb / lit_okb (translation validation, not a proof "
+        "about every output of conv_func); the `.ll` parser and reference evaluator. OUTSIDE Coq (oracle only): that LLVM accepts the IR, "
         "what the JIT computes, llvmlite's printing. Not covered: float arithmetic itself (only operation identity + "
         "flags; values by the JIT oracle for f32/f64 without value-changing fast-math flags), half-precision values, "
         "memory beyond one-cell alloca/store/load, GEP, calls, intrinsics, globals, struct/array/vector types, "
         "inline asm, function/argument attributes, target triple and data layout."),
 }
 COQ_TARGETS = ["Gen/C23_tables.vo", "C23/Model.vo", "C23/Sem.vo", "C23/ProofsBits.vo", "C23/ProofsTables.vo",
-               "C23/ProofsPhi.vo", "C23/Whole.vo", "C23/ProofsWhole.vo", "C23/Enc.vo", "Props/C23.vo"]
+               "C23/ProofsPhi.vo", "C23/Whole.vo", "C23/ProofsWhole.vo", "C23/ProofsLit.vo", "C23/Enc.vo", "Props/C23.vo"]
 REQ = ["Gen.C23_tables", "C23.Model", "C23.Enc"]
 ASSUMPTIONS = [
     "a valid case = an llvm-dialect function obeying MLIR's rules (types, predicate/flag encodings, operand counts, "
@@ -424,8 +437,10 @@ def run_families(ctx: Ctx, fams):
         for c in cases:
             if G.validity(c)[0] and jit_types_ok(c) and all(t >= 1 for b in c["blocks"] for _, t in b["args"]):
                 wr.append((c, G.jit_inputs(ctx.rng, c, 3)))
-    wr.sort(key=lambda x: not any(b["term"][0] == "condbr" and b["term"][2] == b["term"][4] for b in x[0]["blocks"]))
-    wr = wr[: (1500 if ctx.tier == "thorough" else 150)]
+    lim = 1500 if ctx.tier == "thorough" else 120
+    dbl = [x for x in wr if any(b["term"][0] == "condbr" and b["term"][2] == b["term"][4] for b in x[0]["blocks"])]
+    oth = [x for x in wr if x not in dbl]
+    wr = dbl[-(lim // 3):] + oth[-(lim - lim // 3):]        # programs come last in the lists: fewer endless loops
     exprs += [f"enc_runs ({coq_expr(c)[len('enc_func '):]}) {coq_list(czs(i) for i in ins)} 200%nat" for c, ins in wr]
     t0 = time.time()
     recs = []
@@ -444,7 +459,7 @@ def run_families(ctx: Ctx, fams):
     active = ctx.active_known_ids()
     pos = 0
     stats = {"translated": 0, "raised": 0, "llvm_rejected": 0, "inputs_executed": 0, "inputs_excluded": 0, "invalid_sources": 0,
-             "whole_agrees": 0, "whole_okb_true": 0, "lit_matches_true": 0}
+             "whole_agrees": 0, "whole_okb_true": 0, "lit_matches_true": 0, "lit_okb_true": 0}
     for (name, cases, _), (rs, dt) in zip(fams, recs):
         fails, diverge, known_hits = [], [], {}
         for i, (c, rec) in enumerate(zip(cases, rs)):
@@ -470,7 +485,11 @@ def run_families(ctx: Ctx, fams):
                 if mc != rec["struct"]:
                     diverge.append((c, rec["struct"], mc))
                 elif flags:
-                    kflag, wflag, wok, lit = flags
+                    kflag, wflag, wok, lit, litok = flags
+                    stats["lit_okb_true"] += litok == 1
+                    if litok == 0 and G.validity(c)[0]:
+                        diverge.append((c, "conv_func output of a valid function",
+                                        "rejected by the validator lit_okb of C23_conv_func_validated_all"))
                     stats["whole_agrees"] += wflag == 1
                     stats["whole_okb_true"] += wok == 1
                     stats["lit_matches_true"] += lit == 1
